@@ -57,6 +57,7 @@ def run_scheds(ctx, binary, scheds, nproc=8):
         evs, rc, err = core.run_probe(binary, text, env, timeout=900)
         if rc != 0:
             ctx.extra["transient_probe_aborts"] = ctx.extra.get("transient_probe_aborts", 0) + 1
+            ctx.extra.setdefault("transient_abort_reports", []).append("rc %d: %s" % (rc, core.san_report(err, 1500)))
             evs, rc, err = core.run_probe(binary, text, env, timeout=900)
         return evs, rc, err
     with ThreadPoolExecutor(max_workers=nproc) as ex:
@@ -132,7 +133,7 @@ def run(ctx):
     ctx.tick("build")
     models(ctx)
     ctx.tick("model")
-    r = tlc.check("MC_Timer.tla", "MC_Timer_export.cfg", workers=4, timeout=900)
+    r = tlc.check("MC_Timer.tla", "MC_Timer_export.cfg", workers=1, timeout=900)   # one worker: deterministic export
     if not r["ok"]:
         raise core.Infra("export run violates %s" % r["violated"])
     ctx.add_model(r, "MC_Timer.tla", "MC_Timer_export.cfg", ["transition cover export"])
@@ -142,7 +143,13 @@ def run(ctx):
     sims = maximal(sim(ctx, 300 if ctx.quick else 6000, ctx.seed))
     ctx.tick("schedules")
     scheds = []
-    for h in cover:
+    if ctx.quick:
+        # a seeded 1200 of the cover histories per run (all of them in the thorough tier)
+        rng.shuffle(cover)
+        cover_run = cover[:1200]
+    else:
+        cover_run = cover
+    for h in cover_run:
         scheds.append(commands(h, rng.choice([1, 3, 10, 40]), rng, 0.15))
     for h in sims:
         scheds.append(commands(h, rng.choice([1, 2, 5, 20, 40]), rng, 0.3))
@@ -165,10 +172,10 @@ def run(ctx):
     ctx.extra["callbacks_observed"] = nfire
     ctx.extra["settle_timeouts"] = unsettled
     ctx.tick("validate")
-    ctx.rule = ("TLC enumerates the transition cover of the small timer configuration (%d maximal command histories) and %d "
-                "simulated histories with up to 5 events; each is replayed on the real Timer<T> thread with delays scaled into "
+    ctx.rule = ("TLC enumerates the transition cover of the small timer configuration (%d maximal command histories, %d of them "
+                "replayed in this run) and %d simulated histories with up to 5 events; each is replayed on the real Timer<T> thread with delays scaled into "
                 "1-200 ms of virtual time; distinct = distinct (commands, observed fire sequence) with at least one callback"
-                % (len(cover), len(sims)))
+                % (len(cover), len(cover_run), len(sims)))
     k = done[len(done) // 3]
     ctx.sample({"commands": scheds[k], "trace": execs[k]})
     ctx.sample({"commands": scheds[done[-1]], "trace": execs[done[-1]]})
